@@ -6,8 +6,9 @@ import libif
 from oracle import dense, pauli, lc, coupling
 from gen import tomo, sweep
 
-RULE = ("Hypothesis: register size N in 3..8, m in 2..min(6,N) measured qubits given as an ORDERED list (prefix of a drawn "
-        "permutation: sorted, reversed, mirror-symmetric and generic lists all occur), configuration for m, entangled N-qubit "
+RULE = ("Hypothesis: register size N in 3..8, m in 2..min(6,N) measured qubits given as an ORDERED list (any m-subset or a "
+        "contiguous block; order drawn from: any permutation, sorted, reversed, rotated, ends in order but interior permuted, one "
+        "adjacent transposition), configuration for m, entangled N-qubit "
         "state (Clifford+T / rotation circuits / GHZ-/W-like templates), and a constructed m-qubit stabilizer; both "
         "full_state_tomography_circuits and stabilizer_measurement_circuit are exercised, in reduced and in full-register "
         "mode. A case is one (state, list, configuration). Non-trivial = the reduced state on the list differs (> 1e-3 in some "
@@ -141,7 +142,9 @@ def list_shape(qubits, N):
         return "sorted"
     if q == sorted(q, reverse=True):
         return "reversed"
-    return "generic"
+    if q[0] == min(q) and q[-1] == max(q):
+        return "ends-in-order,interior-not" + (",contiguous" if max(q) - min(q) == m - 1 else "")
+    return "generic" + (",contiguous" if max(q) - min(q) == m - 1 else "")
 
 
 def distinguishing(case, want_red):
@@ -165,7 +168,29 @@ def strategy():
         N = draw(st.sampled_from([3, 4, 5, 6, 7, 8]))
         m = draw(st.sampled_from([k for k in (2, 2, 3, 3, 3, 3, 4, 4, 4, 4, 5, 5, 6) if k <= N]))
         name = draw(st.sampled_from(sweep.configs(m)))
-        qubits = list(draw(st.permutations(list(range(N)))))[:m]
+        # which qubits: any m-subset or a contiguous block; in which order: any, sorted, reversed, rotated, or sorted except for
+        # the interior / one adjacent transposition (lists that LOOK ordered at their ends)
+        if draw(st.integers(0, 2)) == 0:
+            a = draw(st.integers(0, N - m))
+            chosen = list(range(a, a + m))
+        else:
+            chosen = sorted(draw(st.permutations(list(range(N))))[:m])
+        order = draw(st.sampled_from(["any", "any", "any", "sorted", "reversed", "rotated", "ends-fixed", "one-transposition"]))
+        if order == "any":
+            qubits = list(draw(st.permutations(chosen)))
+        elif order == "sorted":
+            qubits = chosen
+        elif order == "reversed":
+            qubits = chosen[::-1]
+        elif order == "rotated":
+            r = draw(st.integers(1, m - 1))
+            qubits = chosen[r:] + chosen[:r]
+        elif order == "ends-fixed":
+            qubits = [chosen[0]] + list(draw(st.permutations(chosen[1:-1]))) + [chosen[-1]]
+        else:
+            i = draw(st.integers(0, m - 2))
+            qubits = list(chosen)
+            qubits[i], qubits[i + 1] = qubits[i + 1], qubits[i]
         gens, orbit, _ = draw(hyp.member_gens(m))
         return {"N": N, "m": m, "connectivity": name, "qubits": qubits, "state_ops": draw(tomo.state_ops_strategy(N, max_len=12)),
                 "strings": sweep.strings(gens, m), "zero_seed": draw(st.integers(0, 10 ** 6)),
